@@ -96,6 +96,13 @@ def gen(seed, tier):
         part = r.sample(lines, 60) + [sentinel()]
         cases.append(("C01-c%d" % n, "C", opts_str(o), seg(0, part)))
         n += 1
+    # (e) extreme option values (every i64 is a legal -d / -u): at least 12 applied lines so that the sweep runs
+    for o in ({"d": 9223372036854775807}, {"d": -9223372036854775807}, {"d": 0}, {"u": 9223372036854775807, "i": "x"},
+              {"u": -9223372036854775807, "i": "x"}, {"d": 9223372036854775807, "u": 9223372036854775807, "U": 1, "i": "e"},
+              {"d": 1, "u": 0, "i": "x"}):
+        body = [g.any_frame(r.choice(ICAOS)) for _ in range(30)] + [sentinel()]
+        cases.append(H("C01-x%d" % n, o, [seg(0, body), seg(1500, body)]))
+        n += 1
     # (d) random histories with time steps (update paths, sweeps)
     for i in range(60 if tier == "quick" else 600):
         cases.append(g.random_history("C01-r%d" % i))
@@ -110,9 +117,9 @@ def oracle(parts, outcome, obs):
     oc = outcome.replace("+slow", "")
     if oc != "ok":
         return "implementation outcome '%s' (panic/abort/non-zero exit) %s" % (oc, obs[:200])
-    if parts[1] == "H" and ("C01-h" in parts[0] or "C01-j" in parts[0] or "C01-b" in parts[0]):
+    if parts[1] == "H" and ("C01-h" in parts[0] or "C01-j" in parts[0] or "C01-b" in parts[0] or "C01-x" in parts[0]):
         opts = pyspec.case_opts(parts)
-        if not pyspec.passes_filter(opts, 17):
+        if not pyspec.passes_filter(opts, 17) or int(opts.get("d", "60")) <= 0:
             return None
         last = obs.split("#")[-1]
         if "key=%06X" % SENT_ICAO not in last:
